@@ -108,13 +108,21 @@ pub fn run(rng: &mut Rng, n: usize, rep: &mut Report) {
             }
             // gate: a (possibly stale) cache must not block at or after its expiry, nor later than
             // 60 minutes after it was written
-            for probe in [now, cache.pause_start_timestamp + 1799, cache.pause_start_timestamp + 1800, cache.last_cache_update + 3600] {
+            for probe in [now, now + 1, cache.pause_start_timestamp - 1, cache.pause_start_timestamp, cache.pause_start_timestamp + 1799, cache.pause_start_timestamp + 1800, cache.last_cache_update + 3600] {
                 let gate = cache.is_paused_flag() && !cache.is_expired(probe);
                 if gate && (probe >= cache.pause_start_timestamp + 1800 || probe >= cache.last_cache_update + 3600) {
                     rep.fail(format!("gate blocks at {} with cache start {} updated {}; hist {:?}", probe, cache.pause_start_timestamp, cache.last_cache_update, hist));
                 }
                 if gate {
                     rep.bump("gate_blocking_probe");
+                }
+                // exact specification of the gate (independent of the code under test): for any probe
+                // time not before the cache was written, blocked <=> flagged and probe < start + 1800
+                if probe >= cache.last_cache_update {
+                    let spec = cache.is_paused_flag() && probe < cache.pause_start_timestamp + 1800;
+                    if gate != spec {
+                        rep.fail(format!("group gate at {} is {} but a pause [flag {} start {}] {} in force; hist {:?}", probe, gate, cache.is_paused_flag(), cache.pause_start_timestamp, if spec { "IS" } else { "is NOT" }, hist));
+                    }
                 }
             }
             ops_done += 1;
